@@ -255,6 +255,17 @@ Definition dispatch (cmd : string) (args : list sexp) : option sexp :=
                     enc_res enc_state (run_sequential o ip t)])
       | _, _, _, _ => None
       end
+  | "link", [o; inplace; t] =>
+      (* instance of the stated (not proved) link between the two halves: the files the tasks write are the files of encode *)
+      match dec_opts o, dec_bool inplace, dec_td t with
+      | Some o, Some ip, Some t =>
+          Some (match encode o t, run_sequential o ip t with
+                | Ok d, Ok s => SL [SA "both-ok"; enc_bool (fs_agree (fs s) (flatten [] d)); enc_bool (keys_distinct t)]
+                | Raised _, Raised _ => SA "both-raise"
+                | _, _ => SA "differ"
+                end)
+      | _, _, _ => None
+      end
   | "dtype-table", [] => Some (enc_list enc_str (map fst strdtype2dtype))
   | "grow", [t; ops] =>
       (* (grow <td> ((<kind> (path...) dtype (shape) (cells)) ...)) : the directory after the calls, from encode t *)
